@@ -251,6 +251,25 @@ impl ProgressDrawTarget {
     pub(crate) fn adjust_last_line_count(&mut self, adjust: LineAdjust) -> VisualLines {
         self.kind.adjust_last_line_count(adjust)
     }
+
+    /// Whether `count` more lines above the lines of the last draw are still on the terminal
+    /// (lines that scrolled out of its top cannot be reached by moving the cursor up)
+    pub(crate) fn reaches_above(&self, count: VisualLines) -> bool {
+        let (last_line_count, height) = match &self.kind {
+            TargetKind::Term {
+                term,
+                last_line_count,
+                ..
+            } => (*last_line_count, term.size().0),
+            TargetKind::TermLike {
+                inner,
+                last_line_count,
+                ..
+            } => (*last_line_count, inner.height()),
+            _ => return true,
+        };
+        last_line_count.saturating_add(count) <= height.into()
+    }
 }
 
 #[derive(Debug)]
